@@ -62,7 +62,7 @@ def gen_cases(ctx, return_logprobs=False, n_cases=None):
         maxpost = [None, 1, 2, int(rng.integers(1, n + 2)), n + 7][int(rng.integers(0, 5))]
         n_prior = None if (path == "inmem" or rng.random() < 0.5) else int(rng.integers(1, n + 1))
         cases.append(dict(n=n, kind=kind, seed=int(rng.integers(0, 2**31)), path=path, driver=driver, maxpost=maxpost, n_prior=n_prior,
-                          n_linear=int(rng.integers(1, 4)), randomize=bool(path != "inmem" and rng.random() < 0.5),
+                          n_linear=int(rng.integers(1, 4)), randomize=bool(rng.random() < 0.5),
                           n_batches=[None, 1, 3, n + 1][int(rng.integers(0, 4))], return_logprobs=return_logprobs))
     return cases
 
@@ -92,6 +92,8 @@ def run_impl(ctx, case):
               return_all_logprobs=True, in_memory=(case["path"] == "inmem"))
     if case["path"] != "inmem":
         kw.update(n_prior_samples=case["n_prior"], n_batches=case["n_batches"], randomize_prior_order=case["randomize"])
+    elif case["randomize"]:
+        kw.update(randomize_prior_order=True)  # the in-memory path documents no shuffling; whatever it does, rows keep their own values
     try:
         samples, lls = joker.rejection_sample(data, ps, **kw)
     finally:
@@ -115,7 +117,7 @@ def predicate(case, obs):
     if obs["n_uniform_calls"] != 1 or len(us) != len(lls):
         errs.append(f"expected one uniform draw per evaluated sample from the sampler's generator (calls={obs['n_uniform_calls']}, {len(us)} draws, {len(lls)} samples)")
         return errs
-    if case["randomize"] != (obs["order"] is not None):
+    if (case["randomize"] and case["path"] != "inmem") != (obs["order"] is not None) and not (case["path"] == "inmem" and case["randomize"]):
         errs.append("randomize_prior_order and the generator's choice() calls disagree")
         return errs
     with np.errstate(all="ignore"):
